@@ -1119,3 +1119,76 @@ def g_tables(repo):
 
 
 GROUPS += [("Tables", g_tables, ["nflows/**/*.py"])]
+
+
+# ---------------------------------------------------------------- base distributions and the flow's log_prob
+def g_dist(repo):
+    src = Source(repo, "nflows/distributions/normal.py")
+    defs = []
+    # StandardNormal: neg_energy = -0.5 * sum(inputs ** 2); return neg_energy - self._log_z ; _log_z = 0.5 * prod(shape) * log(2 pi)
+    m = src.method("StandardNormal", "_log_prob")
+    ne = [s for s in m.body if isinstance(s, ast.Assign) and ast.unparse(s.targets[0]) == "neg_energy"]
+    if len(ne) != 1:
+        raise Untranslatable("StandardNormal._log_prob: neg_energy", m)
+    defs.append(single_def("sn_neg_energy_term", ne[0].value, ["inputs"]))
+    ret = [s for s in m.body if isinstance(s, ast.Return)][0]
+    if ast.unparse(ret.value) != "neg_energy - self._log_z":
+        raise Untranslatable("StandardNormal._log_prob: return form", ret)
+    init = src.method("StandardNormal", "__init__")
+    lz = None
+    for st in ast.walk(init):
+        if isinstance(st, ast.Call) and ast.unparse(st.func) == "self.register_buffer" and ast.unparse(st.args[0]) == "'_log_z'":
+            inner = st.args[1]
+            if isinstance(inner, ast.Call) and ast.unparse(inner.func) == "torch.tensor":
+                lz = inner.args[0]
+    if lz is None:
+        raise Untranslatable("StandardNormal.__init__: _log_z buffer", init)
+    tr = ExprTr({}, subst={"np.prod(shape)": "v_numel"})
+    defs.append(("sn_log_z", "Definition sn_log_z {T : Type} (O : ops T) (v_numel : T) : T :=\n  %s.\n" % tr.tr(lz)))
+    # ConditionalDiagonalNormal / DiagonalNormal: per-element terms
+    for cls, pre in (("ConditionalDiagonalNormal", "cdn"), ("DiagonalNormal", "dn")):
+        m = src.method(cls, "_log_prob")
+        ni = [s for s in m.body if isinstance(s, ast.Assign) and ast.unparse(s.targets[0]) == "norm_inputs"]
+        if len(ni) != 1:
+            raise Untranslatable("%s._log_prob: norm_inputs" % cls, m)
+        defs.append(single_def(pre + "_norm_input", ni[0].value, ["inputs", "means", "log_stds"]))
+        lp = [s for s in m.body if isinstance(s, ast.Assign) and ast.unparse(s.targets[0]) == "log_prob"]
+        if len(lp) != 1:
+            raise Untranslatable("%s._log_prob: log_prob assignment" % cls, m)
+        defs.append(single_def(pre + "_energy_term", lp[0].value, ["norm_inputs"]))
+        augs = [ast.unparse(s) for s in m.body if isinstance(s, ast.AugAssign)]
+        if augs != ["log_prob -= torchutils.sum_except_batch(log_stds, num_batch_dims=1)", "log_prob -= self._log_z"]:
+            raise Untranslatable("%s._log_prob: correction terms %s" % (cls, augs), m)
+    # sampling: means + stds * noise
+    sm = src.method("ConditionalDiagonalNormal", "_sample")
+    sv = [s for s in sm.body if isinstance(s, ast.Assign) and ast.unparse(s.targets[0]) == "samples"]
+    defs.append(single_def("cdn_sample", sv[0].value, ["means", "stds", "noise"]))
+    # Bernoulli
+    dsrc = Source(repo, "nflows/distributions/discrete.py")
+    m = dsrc.method("ConditionalIndependentBernoulli", "_log_prob")
+    lp = [s for s in m.body if isinstance(s, ast.Assign) and ast.unparse(s.targets[0]) == "log_prob"]
+    defs.append(single_def("bern_log_prob_term", lp[0].value, ["inputs", "logits"]))
+    mm = dsrc.method("ConditionalIndependentBernoulli", "_mean")
+    if ast.unparse(mm.body[-1]) != "return torch.sigmoid(logits)":
+        raise Untranslatable("ConditionalIndependentBernoulli._mean", mm)
+    # Flow._log_prob: base log-density at the transformed point plus the transform's log-abs-det, same embedded context
+    fsrc = Source(repo, "nflows/flows/base.py")
+    m = fsrc.method("Flow", "_log_prob")
+    txt = [ast.unparse(s) for s in m.body]
+    want0 = "embedded_context = self._embedding_net(context)"
+    want1 = "noise, logabsdet = self._transform(inputs, context=embedded_context)"
+    if txt[0] != want0 or txt[1] != want1 or txt[-1] != "return log_prob + logabsdet":
+        raise Untranslatable("Flow._log_prob: structure changed: %s" % txt, m)
+    if "log_prob = self._distribution.log_prob(noise, context=embedded_context)" not in ast.unparse(m):
+        raise Untranslatable("Flow._log_prob: base density call", m)
+    defs.append(("flow_log_prob", "Definition flow_log_prob {T : Type} (O : ops T) (v_base_log_prob v_logabsdet : T) : T :=\n"
+                 "  (o_add O v_base_log_prob v_logabsdet).\n"))
+    m = fsrc.method("Flow", "sample_and_log_prob")
+    if ast.unparse(m.body[-1]) != "return (samples, log_prob - logabsdet)":
+        raise Untranslatable("Flow.sample_and_log_prob: return form", m)
+    defs.append(("flow_sample_log_prob", "Definition flow_sample_log_prob {T : Type} (O : ops T) (v_base_log_prob v_inverse_logabsdet : T) : T :=\n"
+                 "  (o_sub O v_base_log_prob v_inverse_logabsdet).\n"))
+    return defs, ""
+
+
+GROUPS += [("Dist", g_dist, ["nflows/distributions/normal.py", "nflows/distributions/discrete.py", "nflows/flows/base.py"])]
